@@ -14,7 +14,14 @@
     `ph t` : 0 = segment t not handed out, 1 = its SBs are being processed, 2/3 = SB loop done, in the CONTINUE
              call (waiting for the row / next-row mutex), 4 = CONTINUE call returned.
   Size hypothesis `Seg.InitOK W H C R MR`: 1 ≤ W,H ≤ 4096 SBs, W*H < 65536 SBs (uint16 counters), C,R,MR ≥ 1,
-  segment count < 65536.  `Rr = min (min R H) MR`, `Cc = min C W` are the effective grid after init's clamps.
+  segment count < 65536.  `Rr = effR W H R MR` (= min R H MR, and 1 when W = 1: EbEncDecSegments.c:75-83),
+  `Cc = min C W` are the effective grid after init's clamps.
+
+  History: before the clamp of line 83 (`segRowCount = 1` for a picture / tile group one SB wide) the completion
+  theorems carried the hypothesis `2 ≤ W ∨ Rr = 1`; the excluded grids were a real hang of the encoder
+  (`-w 64 -h 256`, default threads; finding F2).  With the clamp every theorem below holds under `InitOK` alone.
+  `sched_stuck` (about arbitrary control blocks) is kept: it is the reason the clamp is needed, and checks/c24.py
+  reports the hang as a VIOLATION if a one-SB-wide grid ever stops completing again.
 -/
 import SvtVerif.Lemmas.SegmentsGlue
 import SvtVerif.Lemmas.SegmentsMeasure
@@ -66,9 +73,10 @@ theorem sched_terminates {g : SegCtl} (hw : WF g) {st st' : ASt} {k : Nat} (hr :
     (h : Steps g st k st') : k ≤ 4 * (g.segRowCount * g.segBandCount) :=
   steps_bounded hw hr h
 
-/-- **The structural condition that fails for one-SB-wide pictures**: if `Live` fails at row `r` (the first
-    segment of row `r+1` lies beyond `ending(r) + band_count`, so it has no predecessor edge at all) then that
-    segment is not handed out in ANY reachable state — no schedule completes the picture. -/
+/-- **Why `Live` is needed** (the structural condition that failed for one-SB-wide pictures before the clamp of
+    EbEncDecSegments.c:83): if `Live` fails at row `r` (the first segment of row `r+1` lies beyond
+    `ending(r) + band_count`, so it has no predecessor edge at all) then that segment is not handed out in ANY
+    reachable state — no schedule completes the picture. -/
 theorem sched_stuck {g : SegCtl} (hw : WF g) {r : Nat} (hr1 : r + 1 < g.segRowCount)
     (hgap : rowEnd g.rows r + g.segBandCount < rowStart g.rows (r + 1)) {st : ASt} (h : Reachable g st) :
     aget st.ph (rowStart g.rows (r + 1)) = 0 :=
@@ -98,21 +106,23 @@ theorem dep_counts_exact {W H C R MR : Nat} (ok : InitOK W H C R MR) (MC : Nat) 
 /-- `bands_contiguous`: every segment index inside a row's `[starting, ending]` holds at least one SB
     (`valid_sb_count ≠ 0`), so the dependency loop never skips a segment inside a row. -/
 theorem bands_contiguous {W H C R MR : Nat} (ok : InitOK W H C R MR) (MC : Nat) {r s : Nat}
-    (hr : r < min (min R H) MR) (h1 : cst W H (min C W) (min (min R H) MR) r ≤ s)
-    (h2 : s ≤ cen W H (min C W) (min (min R H) MR) r) :
+    (hr : r < effR W H R MR) (h1 : cst W H (min C W) (effR W H R MR) r ≤ s)
+    (h2 : s ≤ cen W H (min C W) (effR W H R MR) r) :
     aget (initSeg W H C R MC MR).validSb s ≠ 0 :=
   initSeg_valid_ne_zero ok MC hr h1 h2
 
-/-- The completion hypothesis holds of the real init exactly when the picture is at least 2 SBs wide or there is
-    a single segment row … -/
-theorem init_live {W H C R MR : Nat} (ok : InitOK W H C R MR) (MC : Nat) (hw : 2 ≤ W ∨ min (min R H) MR = 1) :
-    Live (initSeg W H C R MC MR) :=
-  initSeg_live ok MC hw
+/-- The completion hypothesis `Live` holds of the real init for every accepted size and grid: every segment row
+    after the first has its first segment fed by a bottom edge from the row above (for `W ≥ 2` by the band
+    geometry; a picture one SB wide has a single segment row, line 83). -/
+theorem init_live {W H C R MR : Nat} (ok : InitOK W H C R MR) (MC : Nat) : Live (initSeg W H C R MC MR) :=
+  initSeg_live ok MC
 
-/-- … and fails for every one-SB-wide picture with two or more segment rows. -/
-theorem init_not_live_w1 {H C R MR : Nat} (ok : InitOK 1 H C R MR) (MC : Nat) (h2 : 2 ≤ min (min R H) MR) :
-    ¬ Live (initSeg 1 H C R MC MR) :=
-  initSeg_not_live_W1 ok MC h2
+/-- A picture (tile group) one SB wide is one segment (one row, one band), whatever grid was requested: its SBs
+    are processed by a single worker in raster order (`seg_loop_exact`), i.e. each after the SB above it. -/
+theorem w1_single_segment {H C R MR : Nat} (ok : InitOK 1 H C R MR) (MC : Nat) :
+    (initSeg 1 H C R MC MR).segRowCount = 1 ∧ (initSeg 1 H C R MC MR).segBandCount = 1 ∧
+    (initSeg 1 H C R MC MR).segTtlCount = 1 :=
+  initSeg_W1 ok MC
 
 /-! ## 3. Superblock level: cover, neighbour dependencies, completion of the picture -/
 
@@ -135,32 +145,31 @@ theorem seg_loop_exact {W H C R MR : Nat} (ok : InitOK W H C R MR) (MC : Nat) {s
 
 /-- the model's per-SB segment index is the closed form `cseg` (row·B + band) used by the geometry lemmas -/
 theorem segOf_closed {W H C R MR : Nat} (ok : InitOK W H C R MR) (MC : Nat) {x y : Nat} (hx : x < W) (hy : y < H) :
-    segOf (initSeg W H C R MC MR) (x, y) = cseg W H (min C W) (min (min R H) MR) x y := by
+    segOf (initSeg W H C R MC MR) (x, y) = cseg W H (min C W) (effR W H R MR) x y := by
   obtain ⟨eR, eB, eT, _, _, _, _, _, _⟩ := initSeg_wf_static ok MC
   unfold segOf
   rw [eR, eB, eT]
-  have hH1 := ok.hH1; have hR := ok.hR; have hMR := ok.hMR; have hC := ok.hC; have hW1 := ok.hW1
-  exact sbSeg_eq ok.hW ok.hH (by omega) (by omega) (by omega) ok.hN hx hy
+  have hC := ok.hC; have hW1 := ok.hW1
+  exact sbSeg_eq ok.hW ok.hH (by omega) (effR_pos ok.hH1 ok.hR ok.hMR) (effR_le_H ok.hH1) ok.hN hx hy
 
 /-- `seg_deps_sound` (geometry): for an SB `(x,y)` and its left / top / top-left / top-right neighbour inside
     the picture, the neighbour lies in the same segment (then it is earlier in that segment's raster-order loop,
     `seg_loop_exact`) or its segment precedes `(x,y)`'s segment through a chain of the right/bottom edges that
-    init counts.  Needs `2 ≤ W ∨ Rr = 1` — for `W = 1` the edge relation is empty. -/
-theorem seg_deps_sound {W H C R MR : Nat} (ok : InitOK W H C R MR) (hw : 2 ≤ W ∨ min (min R H) MR = 1)
+    init counts.  (For `W = 1` the edge relation is empty, but then `Rr = 1`: all SBs share one segment.) -/
+theorem seg_deps_sound {W H C R MR : Nat} (ok : InitOK W H C R MR)
     {x y x' y' : Nat} (hx : x < W) (hy : y < H)
     (hn : (1 ≤ x ∧ x' = x - 1 ∧ y' = y) ∨ (1 ≤ y ∧ x' = x ∧ y' = y - 1) ∨
           (1 ≤ x ∧ 1 ≤ y ∧ x' = x - 1 ∧ y' = y - 1) ∨ (x + 1 < W ∧ 1 ≤ y ∧ x' = x + 1 ∧ y' = y - 1)) :
-    cseg W H (min C W) (min (min R H) MR) x' y' = cseg W H (min C W) (min (min R H) MR) x y ∨
-    Relation.TransGen (cEdge W H (min C W) (min (min R H) MR))
-      (cseg W H (min C W) (min (min R H) MR) x' y') (cseg W H (min C W) (min (min R H) MR) x y) := by
-  have hH1 := ok.hH1; have hR := ok.hR; have hMR := ok.hMR
-  exact Seg.seg_deps_sound (by omega) (by omega) hw hx hy hn
+    cseg W H (min C W) (effR W H R MR) x' y' = cseg W H (min C W) (effR W H R MR) x y ∨
+    Relation.TransGen (cEdge W H (min C W) (effR W H R MR))
+      (cseg W H (min C W) (effR W H R MR) x' y') (cseg W H (min C W) (effR W H R MR) x y) := by
+  exact Seg.seg_deps_sound (effR_pos ok.hH1 ok.hR ok.hMR) (effR_le_H ok.hH1) (effR_live ok.hW1 H R MR) hx hy hn
 
 /-- **assign_safe (the property's ordering clause, end to end)**: in every state reachable under any
     interleaving of any number of workers, if the segment holding SB `(x,y)` has been handed out then, for each
     of its left / top / top-left / top-right neighbours inside the picture, the neighbour is in the same segment
     or the neighbour's segment has finished its SB loop (`ph ≥ 3`).  Also nothing is handed out twice (`err = 0`). -/
-theorem assign_safe {W H C R MR : Nat} (ok : InitOK W H C R MR) (MC : Nat) (hw : 2 ≤ W ∨ min (min R H) MR = 1)
+theorem assign_safe {W H C R MR : Nat} (ok : InitOK W H C R MR) (MC : Nat)
     {st : ASt} (hr : Reachable (initSeg W H C R MC MR) st)
     {x y x' y' : Nat} (hx : x < W) (hy : y < H)
     (hn : (1 ≤ x ∧ x' = x - 1 ∧ y' = y) ∨ (1 ≤ y ∧ x' = x ∧ y' = y - 1) ∨
@@ -175,24 +184,25 @@ theorem assign_safe {W H C R MR : Nat} (ok : InitOK W H C R MR) (MC : Nat) (hw :
   rw [segOf_closed ok MC hx hy] at hs ⊢
   rw [segOf_closed ok MC hx' hy']
   refine ⟨hi.err0, ?_⟩
-  rcases seg_deps_sound ok hw hx hy hn with h | h
+  rcases seg_deps_sound ok hx hy hn with h | h
   · exact Or.inl h
   · exact Or.inr (safe_transGen ok MC hi h hs)
 
-/-- **assign_complete**: if the picture is at least two SBs wide (or there is one segment row), every terminal
-    state reachable under any interleaving of any number of workers has processed the segment of every SB. -/
-theorem assign_complete {W H C R MR : Nat} (ok : InitOK W H C R MR) (MC : Nat) (hw : 2 ≤ W ∨ min (min R H) MR = 1)
+/-- **assign_complete**: for every accepted picture size and segment grid, every terminal state reachable under
+    any interleaving of any number of workers has processed the segment of every SB (no quiescent state with
+    unfinished work: the picture always completes). -/
+theorem assign_complete {W H C R MR : Nat} (ok : InitOK W H C R MR) (MC : Nat)
     {st : ASt} (hr : Reachable (initSeg W H C R MC MR) st) (ht : Terminal (initSeg W H C R MC MR) st)
     {x y : Nat} (hx : x < W) (hy : y < H) :
     aget st.ph (segOf (initSeg W H C R MC MR) (x, y)) = 4 := by
   obtain ⟨eR, _, _, _, _, _, _, _, hrows⟩ := initSeg_wf_static ok MC
-  have hH1 := ok.hH1; have hR := ok.hR; have hMR := ok.hMR
-  have hRr : 0 < min (min R H) MR := by omega
-  have hrow : rowOf (min (min R H) MR) H y < (initSeg W H C R MC MR).segRowCount := by
+  have hRr : 0 < effR W H R MR := effR_pos ok.hH1 ok.hR ok.hMR
+  have hH1 := ok.hH1
+  have hrow : rowOf (effR W H R MR) H y < (initSeg W H C R MC MR).segRowCount := by
     rw [eR]; exact rowOf_lt hRr hy
   obtain ⟨e1, e2, _⟩ := hrows _ hrow
   rw [segOf_closed ok MC hx hy]
-  exact sched_complete (initSeg_wf ok MC) (initSeg_live ok MC hw) hr ht _ hrow _
+  exact sched_complete (initSeg_wf ok MC) (initSeg_live ok MC) hr ht _ hrow _
     (by rw [e1]; exact cst_le_cseg hRr (by omega) x y) (by rw [e2]; exact cseg_le_cen hRr (by omega) hx y)
 
 /-- every execution of the real grid is finite (at most `4 · segment_ttl_count` atomic steps) -/
@@ -201,42 +211,27 @@ theorem assign_terminates {W H C R MR : Nat} (ok : InitOK W H C R MR) (MC : Nat)
     k ≤ 4 * ((initSeg W H C R MC MR).segRowCount * (initSeg W H C R MC MR).segBandCount) :=
   steps_bounded (initSeg_wf ok MC) hr h
 
-/-- **w1_stuck** (finding F2): for a picture one superblock wide with two or more segment rows there is a
-    superblock whose segment is not handed out in ANY reachable state — whatever the schedule and the number of
-    workers, the picture never completes (the real encoder hangs: `-w 64 -h 256`, default threads). -/
-theorem w1_stuck {H C R MR : Nat} (ok : InitOK 1 H C R MR) (MC : Nat) (h2 : 2 ≤ min (min R H) MR) :
-    ∃ y, y < H ∧ ∀ st, Reachable (initSeg 1 H C R MC MR) st →
-      aget st.ph (segOf (initSeg 1 H C R MC MR) (0, y)) = 0 := by
-  obtain ⟨eR, eB, _, _, _, _, _, _, hrows⟩ := initSeg_wf_static ok MC
-  have hH1 := ok.hH1; have hR := ok.hR; have hMR := ok.hMR; have hC := ok.hC
-  have hC1 : min C 1 = 1 := by omega
-  have hRH : min (min R H) MR ≤ H := by omega
-  obtain ⟨x, y, hx, hy, hxy⟩ := row_segs_nonempty (W := 1) (H := H) (Cc := 1) (Rr := min (min R H) MR)
-    (r := 1) (s := cst 1 H 1 (min (min R H) MR) 1) (by omega) (by omega) (by omega) hRH (by omega)
-    (Nat.le_refl _) (cst_le_cen (by omega) hRH 1)
-  have hx0 : x = 0 := by omega
-  subst hx0
-  refine ⟨y, hy, fun st hr => ?_⟩
-  rw [segOf_closed ok MC (by omega) hy, hC1, hxy]
-  have h1 : 0 + 1 < (initSeg 1 H C R MC MR).segRowCount := by rw [eR]; omega
-  have hgap := (no_bottom_edge_W1 (H := H) (Rr := min (min R H) MR) (by omega) hRH 0).2.2.2
-  have := sched_stuck (initSeg_wf ok MC) (r := 0) h1
-    (by rw [(hrows 0 (by omega)).2.1, (hrows 1 h1).1, eB, hC1]; exact hgap) hr
-  rw [(hrows 1 h1).1, hC1] at this
-  exact this
-
 /-! ## Non-vacuity -/
 
 /-- the size hypotheses are met by 1080p with 64x64 SBs (30x17 SBs, segment grid 30x17 as computed by
-    `EbEncHandle.c` for many cores) and by the hanging 64x256 picture (1x4 SBs, 4 segment rows) -/
+    `EbEncHandle.c` for many cores) and by the formerly hanging 64x256 picture (1x4 SBs, 4 segment rows requested) -/
 example : InitOK 30 17 30 17 17 := by constructor <;> decide
 example : InitOK 1 4 1 4 4 := by constructor <;> decide
-/-- hypothesis `Reachable`: the initial state is reachable; hypothesis `2 ≤ W ∨ Rr = 1` is decidable on inputs -/
+/-- hypothesis `Reachable`: the initial state is reachable -/
 example : Reachable (initSeg 30 17 30 17 30 17) (initASt (initSeg 30 17 30 17 30 17)) := Reachable.init
-example : (2 ≤ 30 ∨ min (min 17 17) 17 = 1) ∧ 2 ≤ min (min 4 4) 4 := by decide
-/-- the abstract theorems' hypotheses `WF`/`Live` are met by the real init (and `Live` genuinely fails for W = 1) -/
+example : Reachable (initSeg 1 4 1 4 1 4) (initASt (initSeg 1 4 1 4 1 4)) := Reachable.init
+/-- the abstract theorems' hypotheses `WF`/`Live` are met by the real init, also for `W = 1` -/
 example : WF (initSeg 30 17 30 17 30 17) ∧ Live (initSeg 30 17 30 17 30 17) :=
-  ⟨init_wf (by constructor <;> decide) 30, init_live (by constructor <;> decide) 30 (by decide)⟩
-example : ¬ Live (initSeg 1 4 1 4 1 4) := init_not_live_w1 (by constructor <;> decide) 1 (by decide)
+  ⟨init_wf (by constructor <;> decide) 30, init_live (by constructor <;> decide) 30⟩
+example : WF (initSeg 1 4 1 4 1 4) ∧ Live (initSeg 1 4 1 4 1 4) :=
+  ⟨init_wf (by constructor <;> decide) 1, init_live (by constructor <;> decide) 1⟩
+/-- `sched_stuck`'s hypotheses are satisfiable: `preFixW1x2` is the control block `enc_dec_segments_init` produced
+    BEFORE the clamp of line 83 for a 1x2-SB picture with 2 segment rows (rows {0}, {3}; band count 2; all
+    dependency counts 0) — well-formed, with a gap between `ending(0) + band_count = 2` and `starting(1) = 3` -/
+example : WF preFixW1x2 ∧ 0 + 1 < preFixW1x2.segRowCount ∧
+    rowEnd preFixW1x2.rows 0 + preFixW1x2.segBandCount < rowStart preFixW1x2.rows (0 + 1) :=
+  ⟨preFixW1x2_wf, by decide, by decide⟩
+example (st : ASt) (h : Reachable preFixW1x2 st) : aget st.ph 3 = 0 :=
+  sched_stuck preFixW1x2_wf (r := 0) (by decide) (by decide) h
 
 end C24
